@@ -588,7 +588,7 @@ def run(chk, facts):
                                     raise NoEval("CaretPos::offset does not build one CaretPos")
                                 v = {fn_: ev_o.ev(fv, env_o) for fn_, fv in lit[0]["fields"]}
                             want = {"line": ol + l_ - 1, "pos": (op_ + p_ - 1) if l_ == 1 else p_}
-                            if v != want:
+                            if {k_: v.get(k_) for k_ in ("line", "pos")} != want:
                                 bad_o = bad_o or f"({l_}, {p_}) in a fragment that starts at ({ol}, {op_}) is mapped to ({v.get('line')}, {v.get('pos')}), it is at ({want['line']}, {want['pos']})"
             chk.ob("R-C18-5", "offset-function", bad_o is None, "CaretPos::offset: lines add up; the column is shifted on the first line of the fragment only" if bad_o is None else
                    f"CaretPos::offset: {bad_o}", facts.loc_of(of_))
